@@ -32,8 +32,9 @@ CHECKS["C05"] = dict(
 CHECKS["C10"] = dict(
     level="translation_validation",
     text="expand_indices, remove_component_tensors and renumber_indices are run on hand-seeded hygiene skeletons "
-         "(same Index object bound in nested scopes, variables, zeros with free indices) and on VERIF_SEED-driven "
-         "grammar samples over a 3-index pool; z3 proves the output denotes the same value under lexical index "
+         "(same Index object bound in nested scopes: capture and shadowing through IndexSum / ComponentTensor binders; "
+         "variables, zeros with free indices) and on VERIF_SEED-driven grammar samples over a 3-index pool with index "
+         "reuse across scopes; z3 proves the output denotes the same value under lexical index "
          "scoping for all field values; shape/free indices compared directly.",
     technique="SMT translation validation of index-rewriting passes (z3 NRA) on bounded index-notation skeletons",
     design="§4 C10", engine="E1")
@@ -277,8 +278,9 @@ CHECKS["C12"] = dict(
     level="proof",
     text="CrossHair confirms, per counted terminal kind and over symbolic selectors of counts on both sides of the 9/10 "
          "and 99/100 digit boundaries and of shifts, that cmp_expr(t(m), t(n)) == cmp_expr(t(m+s), t(n+s)); a z3 "
-         "digit-vector model (<= 6 digits, validated against Python) of the order of repr-compared terminals proves "
-         "invariance for equal digit counts and yields flip witnesses that are replayed on cmp_expr; nine forms are "
+         "digit-vector model (<= 6 digits, validated against Python) of the text order of reprs proves invariance for "
+         "equal digit counts and yields flip witnesses that are replayed on cmp_expr - it is used only while sampled "
+         "pairs show that cmp_expr is that text order (not the case since fix 3ba7944: recorded as not applicable); nine forms are "
          "built in fresh interpreters with all counters pre-advanced and under several PYTHONHASHSEEDs and their "
          "signatures must coincide (the hash seed has no symbolic variable: replay matrix only).",
     technique="CrossHair symbolic execution + z3 LIA digit-vector model of repr ordering + signature replay across processes",
